@@ -147,10 +147,25 @@ class SelModel:
 
     def _tmp_array(self, f):
         body = f["node"]["body"]["stmts"]
-        if len(body) != 1 or body[0]["t"] != "ExprStmt":
-            raise Missing("Reg::tmp is no longer a single expression `[..].get(tmp).cloned()`")
-        base, chain = method_chain(body[0]["expr"])
+        # the table may be written in place or named first (a local `const` / `let`, or a constant of the file)
+        named = {}
+        for st in body[:-1]:
+            if st["t"] == "Const" and strip_paren(st["expr"])["t"] == "Array":
+                named[st["name"]] = strip_paren(st["expr"])
+            elif st["t"] == "Local" and st["pat"]["t"] == "PIdent" and st.get("init") is not None and strip_paren(st["init"])["t"] == "Array":
+                named[st["pat"]["name"]] = strip_paren(st["init"])
+            else:
+                raise Missing("Reg::tmp is no longer a table lookup `[..].get(tmp).cloned()`")
+        for it_ in self.ast.items(CODEGEN, "Const"):
+            if isinstance(it_.get("expr"), dict) and strip_paren(it_["expr"])["t"] == "Array":
+                named.setdefault(it_["name"], strip_paren(it_["expr"]))
+        if not body or body[-1]["t"] != "ExprStmt":
+            raise Missing("Reg::tmp is no longer a table lookup `[..].get(tmp).cloned()`")
+        base, chain = method_chain(body[-1]["expr"])
         names = [c[0] for c in chain]
+        base = strip_paren(base)
+        if base["t"] == "PathExpr" and path_name(base) in named:
+            base = named[path_name(base)]
         if base["t"] != "Array" or names not in (["get", "cloned"], ["get", "copied"]):
             raise Missing("Reg::tmp is no longer `[Reg::..; n].get(tmp).cloned()`")
         arg = chain[0][1]
